@@ -36,6 +36,7 @@ def run(ctx):
     dropped_prefix_octet_is_compared(ctx, P)
     unprotected_checksum_by_version(ctx, P)
     v2_judged_as_v3(ctx, P)
+    sec1_points_have_the_uncompressed_length(ctx, P)
     s2k_specifier_length_agrees(ctx, P)
     stored_length_encoding(ctx, P)
     stored_length_checked_against_data(ctx, P)
@@ -1263,3 +1264,56 @@ def v2_judged_as_v3(ctx, P, floor=40):
                   not d, function=p, site='%s:%s' % (r['file'], where[0]) if where else None,
                   missing=None if not d else 'with version V2 other calls / constructions are reachable than with V3 (lines %s): the v2 form of a key is judged differently from its v3 form' % where[:6])
     ctx.floor(P + ':S05-18:v2-as-v3:floor', 'functions that test a key version', n, floor)
+
+
+def sec1_points_have_the_uncompressed_length(ctx, P):
+    """OpenPGP carries NIST curve points in the uncompressed SEC1 form only (`04 || X || Y`: 65 / 97 / 133 octets) and the library
+    writes them that way.  `from_sec1_bytes` also decodes the compressed forms (`02/03 || X`): a reader that hands it the octets of the
+    MPI as they came accepts a compressed point, which is then written back - and fingerprinted - uncompressed, i.e. as another packet.
+    Every `from_sec1_bytes` call of the public-parameter readers gets a fixed-size array (the ECDSA readers: a short point cannot
+    decode) or octets whose length was compared with a constant (rejecting) before."""
+    from rules.common import direct_cmp_switches, is_call_to
+    n = 0
+    for p, r in sorted(ctx.f.bodies.items()):
+        if not p.startswith('types::params::public::') or '::tests::' in p:
+            continue
+        b = ctx.wrap(r)
+        cs = b.calls(r'from_sec1_bytes$')
+        if not cs:
+            continue
+        defs = single_defs(b)
+        dom = b.dominators()
+        lens = [g for g, op, side in direct_cmp_switches(b, is_call_to(r'Mpi::len$|\]>::len$|::len$'), lambda c: isinstance(c, int) and c in (33, 49, 65, 67, 97, 133)) if op in ('Eq', 'Ne')]
+        rejecting = set(g for g, _ in guard_switches(b, [i for i, _ in cs], []))
+        for k, (i, t) in enumerate(cs):
+            n += 1
+            kind, v = resolve_value(b, t['args'][0], defs)
+            fixed = False
+            o = t['args'][0]
+            for _ in range(5):
+                d = defs.get(o.get('l')) if 'l' in o else None
+                if d is None:
+                    break
+                x = d[1]
+                if x.get('k') == 'call':
+                    break
+                rr = x['r']
+                src = rr.get('p') if rr['k'] in ('ref', 'copyderef') else (rr['o'][0] if rr['k'] in ('use', 'cast') and rr['o'] and 'l' in rr['o'][0] else None)
+                if src is None:
+                    break
+                ty = b.r['locals'][src['l']]['ty'] or ''
+                if re.match(r'\[u8; \d+\]$', ty) and not [e for e in src['pr'] if e != '*']:
+                    fixed = True
+                    break
+                o = dict(l=src['l'], pr=[])
+            guarded = any(g in dom.get(i, ()) and g in rejecting for g in lens)
+            if not guarded:
+                # `ensure_eq!(p.len(), 65)` compares through references: recognised by what the branch condition derives from
+                for g, _ in guard_switches(b, [i], [r'call:.*(Mpi::len|::len)$']):
+                    og = b.switch_origins(g)
+                    if g in dom.get(i, ()) and has_origin(og, r'const:(33|49|65|67|97|133):') and not has_origin(og, r'op:(Lt|Le|Gt|Ge)$'):
+                        guarded = True
+            ctx.check('%s:S05-19:sec1-point-length:%s#%d' % (P, p, k), 'R-dom', '%s decodes a SEC1 point of fixed (uncompressed) length only' % '::'.join(p.split('::')[-2:]),
+                      fixed or guarded, function=p, site=site(b, i),
+                      missing=None if (fixed or guarded) else 'from_sec1_bytes at %s is handed the MPI octets as they came: a compressed point (33 / 49 / 67 octets) is accepted and written back uncompressed' % site(b, i))
+    ctx.floor(P + ':S05-19:floor', 'SEC1 point decodings in the public-parameter readers', n, 7)
